@@ -102,8 +102,8 @@ def path_item_of(raw: dict, path: str) -> dict:
 def declared_op(raw: dict, path: str, desc: dict) -> dict:
     """The operation as the DOCUMENT declares it, encoded for the oracle (schemas re-read from the raw document)."""
     d = desc["dialect"]
-    item = path_item_of(raw, path)
-    operation = item["post"]
+    path_item = path_item_of(raw, path)
+    operation = path_item["post"]
     params, bodies, encs = [], [], []
     for p in operation.get("parameters", []):
         if p["in"] == "body":
@@ -124,7 +124,7 @@ def declared_op(raw: dict, path: str, desc: dict) -> dict:
         encs.append(b["schema"])
     cfg = desc.get("cfg") or {"allow_x00": True, "codec": "utf-8", "security": False}
     return {"params": params, "bodies": bodies, "cfg": cfg, "defs": defs, "dia": dia(d), "mults": multiples(encs, defs),
-            "methods": sorted(k.upper() for k in item if k.lower() in HTTP_METHODS)}
+            "methods": sorted(k.upper() for k in path_item if k.lower() in HTTP_METHODS)}
 
 
 # ------------------------------------------------------------------------------------------------------------------
